@@ -50,6 +50,9 @@ def _is_gradient_call(e) -> Optional[ast.expr]:
 def _finite_guard(test_ast: ast.expr, label: str) -> Optional[Tuple[str, ast.expr]]:
     """('nan'|'inf'|'finite', subject) if taking `label` out of this test establishes that subject is not NaN / not inf."""
     t = test_ast
+    while isinstance(t, ast.UnaryOp) and isinstance(t.op, ast.Not):
+        t = t.operand
+        label = "T" if label == "F" else "F"
     if isinstance(t, ast.Call) and call_name(t) in ("np.isnan", "math.isnan", "numpy.isnan") and label == "F":
         return "nan", t.args[0]
     if isinstance(t, ast.Call) and call_name(t) in ("np.isinf", "math.isinf", "numpy.isinf") and label == "F":
@@ -77,7 +80,12 @@ class Kernel:
     def __init__(self, repo: Repo, mod, cls, meth, family, iface):
         self.repo, self.family, self.iface = repo, family, iface
         self.ci = repo.cls(f"{mod}:{cls}")
-        self.fn = repo.method(self.ci, meth)[1]
+        from .common import canon_fn
+        self.src_fn = repo.method(self.ci, meth)[1]
+        # analysed on the structural normal form with private helpers inlined (sa/canon.py); temporaries are followed by def-use expansion
+        from .common import canon_keep
+        self.fn = canon_keep(repo, self.ci, self.src_fn, keep={"_log_proposal", "log_proposal", "_loglikelihood", "loglikelihood", "_accept_or_reject"},
+                             subst="bool")
         self.label = f"{mod}:{cls}.{meth}"
         self.ex = Expander(self.fn)
         self.g = self.ex.cfg
@@ -88,12 +96,19 @@ class Kernel:
     def _find_mh_test(self):
         cands = []
         for t in self.g.tests():
-            if not isinstance(t.ast, ast.Compare) or len(t.ast.ops) != 1:
+            core, label = t.ast, "T"
+            while isinstance(core, ast.UnaryOp) and isinstance(core.op, ast.Not):     # `if not (log_u <= alpha): reject`
+                core, label = core.operand, ("F" if label == "T" else "T")
+            if not isinstance(core, ast.Compare) or len(core.ops) != 1:
                 continue
-            e = self.ex.expand(t.ast, t)
+            e = self.ex.expand(core, t)
+            if not isinstance(e, ast.Compare):
+                continue
             lhs, rhs = e.left, e.comparators[0]
             if isinstance(rhs, ast.Call) and call_name(rhs) == "min" and len(rhs.args) == 2:
                 cands.append((t, e, lhs, rhs))
+                self.mh_label = label
+                self.mh_cmp = core
         if len(cands) != 1:
             raise AnchorError(f"{self.label}: expected exactly one test `log(u) <= min(0, E)`, found {len(cands)}")
         self.mh_test, self.mh_expanded, self.lhs, self.rhs = cands[0]
@@ -105,7 +120,7 @@ class Kernel:
 
     def accept_nodes(self) -> List[Node]:
         return [n for n in self.g.nodes if n.ast is not None and n.kind in ("stmt", "return")
-                and self.g.requires_edge(n, self.mh_test, "T")]
+                and self.g.requires_edge(n, self.mh_test, self.mh_label)]
 
 
 def run(chk, repo: Repo):
@@ -121,7 +136,7 @@ def run(chk, repo: Repo):
     cache_point_rule(chk, repo, "C02-R7", repo.classes_in("cuqi/experimental/mcmc/"))
 
     kernels = [Kernel(repo, *k) for k in KERNELS]
-    known_fns = {id(k.fn) for k in kernels}
+    known_fns = {id(k.src_fn) for k in kernels}
     # R6: discovery cross-check
     extra = []
     for m in repo.modules.values():
@@ -171,7 +186,7 @@ def _current_point_expr(k: Kernel) -> str:
 
 def _r3(chk, repo, k: Kernel):
     problems = []
-    cmp = k.mh_test.ast
+    cmp = k.mh_cmp
     if not isinstance(cmp.ops[0], (ast.LtE, ast.Lt)):
         problems.append(f"comparison operator {type(cmp.ops[0]).__name__} is not <=")
     lhs_txt = unparse(k.lhs)
@@ -250,6 +265,26 @@ def _mala_gradients(k: Kernel) -> Tuple[str, str]:
 
 
 # ------------------------------------------------------------------------------------------------ R1
+def _atoms(k: Kernel, t: Node, lab: str):
+    """the atomic facts established by leaving test `t` through edge `lab`: a named boolean is expanded to its definition;
+    (a or b) false -> a false and b false; (a and b) true -> a true and b true; not a -> a with the label flipped"""
+    def rec(e, lab, depth=0):
+        if isinstance(e, ast.UnaryOp) and isinstance(e.op, ast.Not):
+            yield from rec(e.operand, "T" if lab == "F" else "F", depth)
+        elif isinstance(e, ast.BoolOp) and ((isinstance(e.op, ast.Or) and lab == "F") or (isinstance(e.op, ast.And) and lab == "T")):
+            for v in e.values:
+                yield from rec(v, lab, depth)
+        elif isinstance(e, ast.Name) and depth < 3:
+            x = k.ex.expand(e, t)
+            if isinstance(x, ast.Name):
+                yield e, lab
+            else:
+                yield from rec(x, lab, depth + 1)
+        else:
+            yield e, lab
+    yield from rec(t.ast, lab)
+
+
 def _r1(chk, repo, k: Kernel):
     acc = k.accept_nodes()
     if not acc:
@@ -259,13 +294,14 @@ def _r1(chk, repo, k: Kernel):
     for n in acc:
         have = set()
         for t, lab in k.g.guards_of(n):
-            fg = _finite_guard(t.ast, lab)
-            if fg is None:
-                continue
-            kind, subj = fg
-            subj_x = unparse(k.ex.expand(subj, t))
-            if Ltxt is not None and subj_x == Ltxt:
-                have.add(kind)
+            for atom, alab in _atoms(k, t, lab):
+                fg = _finite_guard(atom, alab)
+                if fg is None:
+                    continue
+                kind, subj = fg
+                subj_x = unparse(k.ex.expand(subj, t))
+                if Ltxt is not None and subj_x == Ltxt:
+                    have.add(kind)
         if not ("finite" in have or {"nan", "inf"} <= have):
             # an earlier raise on the same predicate is an accepted guard form
             missing.append((n, sorted(have)))
